@@ -170,7 +170,7 @@ def run(tier, t0):
     from a5.core import serialization as ser
     acc = common.Acc()
     segmap = discover_segment_map(acc)
-    R = 7 if tier == 'quick' else 8
+    R = 7 if tier == 'quick' else 9
     tasks = [(f, r, segmap) for r in range(0, R + 1) for f in range(12)]
     tasks = common.rotate(tasks, common.seed())
     level_ids = {r: set() for r in range(0, R + 1)}
